@@ -61,3 +61,14 @@ Definition unambiguousb (comps : list string) (pn : list ascii) (toks : list tok
 Definition no_blankb (t : list ascii) : bool := negb (memb Ascii.eqb " "%char t).
 Definition wf_tablesb (T : tables) (Y : symbols) : bool :=
   forallb (fun c => no_blankb (unescape (chars c))) (components T Y).
+
+(** decidable premises of the ice-species theorem (C08.ice_species_counterpart) *)
+Definition group_okb (d : list ascii) : bool :=
+  match d with
+  | [] => true
+  | c :: _ => forallb is_digit d && negb (Ascii.eqb c "0"%char)
+  end.
+Definition group_of (d : list ascii) : N := match d with [] => 0%N | _ => digits_val d 0 end.
+Definition no_occb (p s : list ascii) : bool :=
+  negb (Nat.eqb (List.length p) 0) &&
+  forallb (fun st => negb (starts_with p (skipn st s))) (seq 0 (S (List.length s))).
